@@ -3,7 +3,7 @@
 From Coq Require Import String.
 From Coq Require Import List NArith Lia Bool Arith.
 From Coq Require Import Init.Byte.
-From FFS Require Import Base.Res Base.Bytes Rlp.Model Rlp.Spec.
+From FFS Require Import Base.Res Base.Bytes Base.Lit Rlp.Model Rlp.Spec.
 Import ListNotations.
 
 (* trees as written by the harness: leaves in the byte-DSL *)
